@@ -363,7 +363,6 @@ func c17MqExec(in c17MqIn) (obs c17MqObs) {
 			}
 			s.conn.Close()
 			s.state = 0
-		}
 		case len(op) >= 2 && op[0] == 3:
 			cid := fmt.Sprintf("c%d", op[1])
 			reconnect := func() {
@@ -426,12 +425,12 @@ func c17MqExec(in c17MqIn) (obs c17MqObs) {
 			if parked != nil {
 				// is the broker lock free while deleteSession is inside the Disconnect pipeline?
 				free := false
-				for i := 0; i < 200 && !free; i++ {
+				for i := 0; i < 8 && !free; i++ {
 					if b.TryLock() {
 						b.Unlock()
 						free = true
 					} else {
-						time.Sleep(50 * time.Microsecond)
+						time.Sleep(100 * time.Microsecond)
 					}
 				}
 				if free {
